@@ -36,7 +36,7 @@ KINDS = ["inbound_req_basic", "inbound_req_threading", "inbound_req_threading_no
          "connect_failed_async", "cea_rejected", "cer_rejected_no_common_app", "unknown_peer", "ce_timeout",
          "refused_while_stopping", "late_and_unknown_answers", "conn_with_request_closed", "outbound_req_timeout",
          "conn_closed_mid_frame", "inbound_req_raise", "inbound_req_threading_raise",
-         "second_conn_cycles", "request_then_garbage"]
+         "second_conn_cycles", "request_then_garbage", "inbound_req_threading_conn_gone"]
 PEER = "peer1.verif.example"
 
 
@@ -102,7 +102,9 @@ class Kind:
         out = kind in ("connect_refused", "connect_failed_async", "cea_rejected")
         peers = [{"name": PEER, "persistent": out, "reconnect_wait": 1, "timers": {}}]
         app = {"tag": "a4", "id": 4, "peers": [PEER]}
-        if kind.startswith("inbound_req_threading"):
+        if kind == "inbound_req_threading_conn_gone":
+            app.update(kind="threading", max_threads=0, behaviour="slow")
+        elif kind.startswith("inbound_req_threading"):
             app.update(kind="threading", max_threads=0,
                        behaviour="none" if kind.endswith("none") else ("raise" if kind.endswith("raise") else "answer"))
         if kind == "inbound_req_raise":
@@ -265,6 +267,22 @@ class Kind:
                 sp.close()
                 h.settle()
                 first.frames.clear()
+        elif kind == "inbound_req_threading_conn_gone":
+            # the requester is gone by the time the handler has its answer: the answer cannot be routed any more
+            app = w.apps["a4"]
+            for i in range(n):
+                app.release.clear()
+                sp = self.connect(i)
+                hbh, e2e = self.ids()
+                sp.send(M.ccr(PEER, REALM, REALM, app=4, hbh=hbh, e2e=e2e, session=f"g;{i}"))
+                for _ in range(6):
+                    h.tick()
+                    h.wait_workers_idle(0.2)
+                sp.close()
+                h.settle()
+                app.release.set()
+                time.sleep(0.01)
+                h.settle()
         elif kind == "request_then_garbage":
             # the connection closes itself (unparseable bytes) while answers to the requests before them are pending
             for i in range(n):
